@@ -203,6 +203,8 @@ pub struct ModelAns {
 
 #[derive(Default, Clone, Debug)]
 pub struct ModelStats {
+    pub shift_checks: u64,
+    pub shift_informative: u64,
     pub pinned_queries: u64,
     pub pinned_unknown: u64,
     pub pristine_queries: u64,
@@ -222,11 +224,13 @@ pub struct Model<'w> {
     /// (description, position-pinned answer, find_from answer)
     pub pinned_viols: Mutex<Vec<(String, String, String)>>,
     pinned_budget: Mutex<u32>,
+    /// (description, implied answer, observed answer)
+    pub shift_viols: Mutex<Vec<(String, String, String)>>,
 }
 
 impl<'w> Model<'w> {
     pub fn new(world: &'w World) -> Self {
-        Model { world, memo: Mutex::new(HashMap::new()), stats: Mutex::new(ModelStats::default()), pristine_viols: Mutex::new(Vec::new()), pinned_viols: Mutex::new(Vec::new()), pinned_budget: Mutex::new(8) }
+        Model { world, memo: Mutex::new(HashMap::new()), stats: Mutex::new(ModelStats::default()), pristine_viols: Mutex::new(Vec::new()), pinned_viols: Mutex::new(Vec::new()), pinned_budget: Mutex::new(8), shift_viols: Mutex::new(Vec::new()) }
     }
 
     /// FIRST(regex, text, cursor): a brand-new search on a freshly compiled,
@@ -264,6 +268,111 @@ impl<'w> Model<'w> {
             let mut st = self.stats.lock().unwrap();
             st.calls += 1;
             st.steps += steps;
+        }
+        // Cursor-shift consistency (every world): if the first match from an earlier cursor c'
+        // starts at or after c, it is also the first match from c (and "none from c'" implies
+        // "none from c"). Both sides are the engine, but the scan windows, prefilter resume
+        // points and look-behind context sit differently relative to the cursor, so a defect
+        // that depends on where the cursor is cannot cancel out.
+        if cursor <= text.len() && cursor > 0 {
+            if let Some(at_c) = &ans.outcome {
+                if !at_c.starts_with("NoRegex") && !at_c.starts_with("Panicked") {
+                    let mut h = Fnv::default();
+                    h.str(text);
+                    h.u64(cursor as u64);
+                    let ascii = spec.input == InputKind::Ascii;
+                    // an earlier cursor: 0, or 1..8 characters back
+                    let back = (h.0 % 9) as usize;
+                    let mut c2 = if back == 0 { 0 } else { cursor.saturating_sub(back) };
+                    if !ascii {
+                        while c2 > 0 && !text.is_char_boundary(c2) {
+                            c2 -= 1;
+                        }
+                    }
+                    if c2 < cursor {
+                        let (r2, st2) = model_mode(fuel, || {
+                            let re = compile(spec).ok()?;
+                            let mut it = open_iter(&re, spec, text_static, c2);
+                            let m = it.next();
+                            drop(it);
+                            Some(m)
+                        });
+                        let mut stg = self.stats.lock().unwrap();
+                        stg.shift_checks += 1;
+                        stg.steps += st2;
+                        drop(stg);
+                        if let Ok(Some(m2)) = r2 {
+                            let implied: Option<String> = match &m2 {
+                                None => Some("None".to_string()),
+                                Some(m) if m.start() >= cursor => Some(fmt_match(m)),
+                                Some(_) => None, // an earlier match starts before the cursor: no information
+                            };
+                            if let Some(imp) = implied {
+                                self.stats.lock().unwrap().shift_informative += 1;
+                                if imp != *at_c {
+                                    self.shift_viols.lock().unwrap().push((
+                                        format!("/{}/{} ({:?},{:?}) on {:?}: first match from {} is {} which starts at or after {}", spec.pattern, spec.flags, spec.exec, spec.input, text, c2, imp, cursor),
+                                        imp,
+                                        format!("{} (first match from {})", at_c, cursor),
+                                    ));
+                                }
+                            }
+                        }
+                    }
+                }
+            }
+        }
+        // ... and forwards: if the first match from c starts at or after a later cursor c'' (or
+        // there is none), the first match from c'' is the same (none).
+        if cursor < text.len() {
+            if let Some(at_c) = &ans.outcome {
+                if !at_c.starts_with("NoRegex") && !at_c.starts_with("Panicked") {
+                    let ascii = spec.input == InputKind::Ascii;
+                    let limit = match ans.range {
+                        Some((ms, _)) => ms,
+                        None => text.len(),
+                    };
+                    if limit > cursor {
+                        let mut h = Fnv::default();
+                        h.str(text);
+                        h.u64(cursor as u64 ^ 0x55);
+                        // the match start itself, or a point in between
+                        let mut c2 = if h.0 % 3 == 0 { limit } else { cursor + 1 + (h.0 as usize % (limit - cursor)) };
+                        if !ascii {
+                            while c2 < text.len() && !text.is_char_boundary(c2) {
+                                c2 += 1;
+                            }
+                        }
+                        if c2 > cursor && c2 <= limit {
+                            let (r2, st2) = model_mode(fuel, || {
+                                let re = compile(spec).ok()?;
+                                let mut it = open_iter(&re, spec, text_static, c2);
+                                let m = it.next();
+                                drop(it);
+                                Some(m)
+                            });
+                            let mut stg = self.stats.lock().unwrap();
+                            stg.shift_checks += 1;
+                            stg.shift_informative += 1;
+                            stg.steps += st2;
+                            drop(stg);
+                            if let Ok(Some(m2)) = r2 {
+                                let got = match &m2 {
+                                    None => "None".to_string(),
+                                    Some(m) => fmt_match(m),
+                                };
+                                if got != *at_c {
+                                    self.shift_viols.lock().unwrap().push((
+                                        format!("/{}/{} ({:?},{:?}) on {:?}: first match from {} is {}, which starts at or after {} (or is none)", spec.pattern, spec.flags, spec.exec, spec.input, text, cursor, at_c, c2),
+                                        at_c.clone(),
+                                        format!("{} (first match from {})", got, c2),
+                                    ));
+                                }
+                            }
+                        }
+                    }
+                }
+            }
         }
         // Independent first-match oracle (sampled worlds): see first_pinned.
         if self.world.knobs.pristine && cursor <= text.len() && text.chars().count() <= 24 {
@@ -1835,6 +1944,17 @@ pub fn execute(world: &World, explicit: Option<&[Segment]>) -> Exec {
                 observed: v.observed.clone(),
             });
         }
+    }
+    for (what, implied, observed) in model.shift_viols.lock().unwrap().iter() {
+        viols.push(Violation {
+            property: "C09",
+            clause: "first-match-inconsistent-under-cursor-shift".into(),
+            pass: 0,
+            thread: 0,
+            op: 0,
+            expected: format!("{}: {}", implied, what),
+            observed: observed.clone(),
+        });
     }
     for (what, pinned, inproc) in model.pinned_viols.lock().unwrap().iter() {
         viols.push(Violation {
